@@ -251,6 +251,46 @@ def o2_node_steps(ctx, op, answer):
     ctx.reached()
 
 
+def o2_truth_tables(ctx, op):
+    """release_address() / check_connection() on a single real mesh node with a symbolic outcome per transmitted packet"""
+    clock = fresh_env(ctx, tick_ns=5_000_000)
+    radio, node, x = build_node(ctx, clock, "mesh", 2)
+    connected = bool(ctx.choice("connected", 2))
+    if not connected:
+        node._begin(0o4444)
+        x = 0o4444
+    else:
+        ctx.assume(x != 0o4444)
+    link, outcome = per_packet_link(ctx, radio)
+    sent0 = len(radio.sent)
+    if op == "release":
+        res = node.release_address()
+        pk = distinct_packets(radio, sent0)
+        if not connected:
+            ctx.check(res == False and not pk, "release_address() on an unconnected node: False, nothing sent")  # noqa: E712
+        else:
+            ok = bool(pk) and pk[0]["acked"] == True  # noqa: E712
+            ctx.check(res == ok, "release_address() is True iff the release reached the first hop")
+            ctx.check(node.node_address == (0o4444 if ok else x), "it returns the node to the unassigned address iff it succeeded")
+            if pk:
+                d = pk[0]["data"]
+                ctx.check(s_and(d[6] == 197, (d[0] | (d[1] << 8)) == x, (d[2] | (d[3] << 8)) == 0), "a MESH_ADDR_RELEASE from the node to the master")
+    else:
+        attempts = ctx.int("attempts", 0, 3)
+        res = node.check_connection(attempts)
+        pk = distinct_packets(radio, sent0)
+        if not connected:
+            ctx.check(res == False and not pk, "check_connection() is False for an unconnected node (nothing sent)")  # noqa: E712
+        else:
+            any_ok = any(e["acked"] for e in pk)
+            ctx.check(res == any_ok, "check_connection() is True exactly when a ping to the parent was acknowledged")
+            ctx.check(len(pk) <= ctx.conc(attempts), "at most `attempts` pings")
+            for e in pk:
+                ctx.check(s_and(e["data"][6] == 130, (e["data"][2] | (e["data"][3] << 8)) == NS.parent(x)), "a NETWORK_PING to the parent")
+    listening_ok(ctx, radio, node.node_address, "after %s" % op)
+    ctx.reached()
+
+
 def jobs(tier):
     out = []
     for j in ((1, 2, 3, 4, 6) if tier == "quick" else (1, 2, 3, 4, 5, 6, 8, 12)):
@@ -259,6 +299,8 @@ def jobs(tier):
         out.append(Job("O1-co-simulation-through-relay", o1_cosim, dict(joiners=j, relay=True), cost=200 * j))
     for tmo in ((300, 700) if tier == "quick" else (300, 700, 1500)):
         out.append(Job("O3-join-under-packet-loss", o3_lossy_join, dict(timeout_ms=tmo), cost=300, shards=8, max_paths=60000))
+    for op in ("release", "check_connection"):
+        out.append(Job("O2-release-and-check_connection-truth-tables", o2_truth_tables, dict(op=op), cost=20, shards=2))
     for op in ("lookup_address", "lookup_node_id"):
         for answer in ("none", "short", "ok", "long", "foreign"):
             out.append(Job("O2-lookup-step", o2_node_steps, dict(op=op, answer=answer), cost=20, shards=2))
